@@ -95,6 +95,25 @@ func failingStatements(w *world, maxM int) []failStmt {
 		failStmt{SQL: "CREATE TABLE w4 ()", Class: "create/no-columns"},
 		failStmt{SQL: "CREATE TABLE w5 (a varchar(0))", Class: "create/varchar-0"},
 	)
+	// a column the catalog cannot hold (a length beyond the INT range; a name that makes its catalog row longer than a
+	// row may be) at every position k of m columns, and a table name that is too long for the page table
+	// (K stays 0: these are not row operations of the D16 kind; the position is part of the class)
+	for m := 1; m <= 4; m++ {
+		for k := 1; k <= m; k++ {
+			for kind, col := range []string{"x varchar(3000000000)", strings.Repeat("n", 395) + " int", strings.Repeat("v", 380) + " varchar(3000000000)"} {
+				var cols []string
+				for i := 1; i <= m; i++ {
+					if i == k {
+						cols = append(cols, col)
+					} else {
+						cols = append(cols, fmt.Sprintf("c%d %s", i, []string{"int", "varchar(255)", "boolean", "bigint"}[i%4]))
+					}
+				}
+				out = append(out, failStmt{SQL: fmt.Sprintf("CREATE TABLE wu%d%d%d (%s)", m, k, kind, strings.Join(cols, ", ")), Class: fmt.Sprintf("create/unstorable-column-%d-of-%d", k, m)})
+			}
+		}
+	}
+	out = append(out, failStmt{SQL: "CREATE TABLE " + strings.Repeat("w", 400) + " (a int, b int)", Class: "create/table-name-too-long"})
 	if len(t.Rows) > 0 {
 		// valid statements over the whole tree: they are expected to succeed (then there is nothing to judge here);
 		// if the engine fails one of them half way, the same rule applies - an error means nothing has changed
